@@ -122,6 +122,7 @@ fn start_spec(s: &Start, names: &[String]) -> ArchiveSpec {
                 seed: 1000 + i as u32,
                 method: if i % 3 == 0 { M_NONE } else { M_ZLIB },
                 enc: if i == 5 { Enc::Key } else { Enc::None },
+                locale: 0,
             })
             .collect(),
     }
